@@ -51,7 +51,7 @@ class CUQIarray(np.ndarray):
     @property
     def funvals(self):
         """ Returns itself as function values. """
-        if self.is_par is True:
+        if self.is_par:
             vals = self.geometry.par2fun(self)
         else:
             vals = self
@@ -72,7 +72,7 @@ class CUQIarray(np.ndarray):
     @property
     def parameters(self):
         """ Returns itself as parameters. """
-        if self.is_par is False:
+        if not self.is_par:
             if self.dtype == np.dtype('O'):
                 # If the current state if the CUQIarray is function values, and
                 # the data type of self is object (e.g. FEniCS function), then
